@@ -263,7 +263,14 @@ pub fn install(env: &Env, plan: &Plan, tag_lines: bool) -> Setup {
                     let last = j + 1 == lines;
                     let nl = if last && unterminated { "" } else { "\n" };
                     let line = if tag_lines {
-                        format!("{}¦{}¦{}¦{}{}", t.path, c, stream, j, nl)
+                        // some lines end in blanks (space, tab, no-break space, ideographic space)
+                        // or have nothing but blanks after the tag
+                        let tail = ["", " ", "\t", "\u{a0}", "  \u{3000}", " x", "", ""][(j + task_no) % 8];
+                        if (j + 3 * task_no) % 11 == 10 {
+                            format!("{}¦{}¦{}¦   {}", t.path, c, stream, nl)
+                        } else {
+                            format!("{}¦{}¦{}¦{}{}{}", t.path, c, stream, j, tail, nl)
+                        }
                     } else {
                         format!("{} {} {} line {}{}", t.path, c, stream, j, nl)
                     };
@@ -562,6 +569,102 @@ pub fn check_c15(case: &Case, w: usize) -> CheckResult {
         .inv(env.invocations))
 }
 
+/// A group in which one task fails while the listener connection is contended: a quiet task has
+/// written its only line seconds before, several chatty tasks queue for the connection (each
+/// flush holds it for `lock_delay_ms` through the guarded point `log.stream.locked`), then one
+/// task exits 1 and the rest is cancelled. What the quiet task wrote long before the failure is
+/// stored with and without a listener; the cancelled chatty tasks are not compared.
+#[derive(Debug, Clone, Serialize, Deserialize)]
+pub struct CancelCase {
+    pub chatty: usize,
+    pub lock_delay_ms: u64,
+    pub fail_after_ms: u64,
+}
+
+pub fn cancel_cases(thorough: bool) -> Vec<CancelCase> {
+    let mut v = vec![
+        CancelCase { chatty: 4, lock_delay_ms: 1500, fail_after_ms: 5000 },
+        CancelCase { chatty: 3, lock_delay_ms: 2500, fail_after_ms: 6000 },
+    ];
+    if thorough {
+        v.push(CancelCase { chatty: 12, lock_delay_ms: 900, fail_after_ms: 5000 });
+        v.push(CancelCase { chatty: 2, lock_delay_ms: 4000, fail_after_ms: 7000 });
+        v.push(CancelCase { chatty: 8, lock_delay_ms: 1500, fail_after_ms: 9000 });
+    }
+    v
+}
+
+pub fn check_c15_cancel(case: &CancelCase, w: usize) -> CheckResult {
+    let mut env = Env::new(w);
+    let n = case.chatty + 2;
+    let cfg = gen::layered_config(&[n], &[0, 1, 2, 3, 4, 5, 6, 7]);
+    env.install_config(&cfg);
+    // the quiet task is started last: its first flush queues behind those of the chatty tasks
+    let quiet = cfg.targets[n - 1].path.clone();
+    let bad = cfg.targets[0].path.clone();
+    let quiet_line = b"the only line of the quiet task\n".to_vec();
+    let mut beh = BTreeMap::new();
+    let mut expected = BTreeMap::new();
+    for (i, t) in cfg.targets.iter().enumerate() {
+        let b = if i == n - 1 {
+            Behavior { sleep_ms: 200, out: vec![Step::W(quiet_line.clone())], sleep_after_ms: 30_000, ..Default::default() }
+        } else if i == 0 {
+            Behavior { sleep_ms: case.fail_after_ms, exit: 1, ..Default::default() }
+        } else {
+            let mut out = vec![];
+            let mut err = vec![];
+            for j in 0..300 {
+                out.push(Step::W(format!("{} out {}\n", t.path, j).into_bytes()));
+                out.push(Step::P(100));
+                err.push(Step::W(format!("{} err {}\n", t.path, j).into_bytes()));
+                err.push(Step::P(130));
+            }
+            Behavior { out, err, ..Default::default() }
+        };
+        beh.insert(("c0".to_string(), t.path.clone()), b);
+        expected.insert(("stdout".to_string(), t.path.clone(), "c0".to_string()), vec![]);
+    }
+    bb::install_simple(&env, &cfg, &beh);
+    let setup = Setup { cfg: cfg.clone(), commands: vec!["c0".to_string()], expected };
+    let judged = |o: &Outcome| {
+        (
+            o.code,
+            o.failed,
+            o.statuses.get(&format!("c0|{}", bad)).cloned(),
+            o.logs.get(&format!("c0|{}|stdout", quiet)).cloned(),
+        )
+    };
+    let (reference, ref_out) = run_and_collect(&mut env, &setup, Duration::from_secs(120), false, 0)?;
+    env.kill_groups();
+    if reference.failed != Some(true) {
+        return inconclusive(format!("the reference run did not fail as planned: {}", ref_out.brief()));
+    }
+    if judged(&reference).3.as_deref() != Some(String::from_utf8_lossy(&quiet_line).as_ref()) {
+        // (what a cancelled task wrote seconds before the failure is stored on the unchanged tree;
+        // if that ever stops being the case without a listener, this sub-check has no reference)
+        return inconclusive("without a listener the quiet task's line is not in its stored log".into());
+    }
+    let port = env.log_port;
+    let mut tail = env.mr_spawn(&["log", "tail", "--stdout", "--stderr"], &[]);
+    if !bb::wait_listening(port, Duration::from_secs(20)) {
+        tail.kill_group();
+        return inconclusive("log tail did not start listening".into());
+    }
+    let with_res = run_and_collect(&mut env, &setup, Duration::from_secs(180), true, case.lock_delay_ms);
+    tail.kill_group();
+    let _ = tail.wait(Duration::from_secs(10));
+    env.kill_groups();
+    let (with, with_out) = with_res?;
+    if judged(&with) != judged(&reference) {
+        return viol_obs(
+            "c15.cancel.differs",
+            "with a listener attached, a task that had written its output seconds before a sibling failed has a different stored log (or the run a different outcome) than without one".into(),
+            json!({"without": judged(&reference), "with": judged(&with), "stderr_with": with_out.stderr_str()}),
+        );
+    }
+    Ok(CaseInfo::new(true).class("sibling-fails-while-the-listener-connection-is-contended").inv(env.invocations))
+}
+
 // ---------------------------------------------------------------------------
 // C20
 
@@ -824,6 +927,12 @@ non-trivial = the listener was connected and died in the middle of the run; dist
     ctx.assumptions = vec!["a listener that stays connected but stops reading is not generated (not in the quantifier)".into()];
     let n = ctx.n(80, 1500);
     ctx.drive("pair", strategy_c15, n, check_c15);
+    ctx.drive_all(
+        "failure-under-contention",
+        cancel_cases(ctx.thorough()),
+        "a task fails while 3-16 chatty siblings queue for the listener connection (each flush holds it 0.9-4 s); judged: exit status, failed flag, the failing task's status and the stored log of a task that wrote its only line seconds earlier",
+        check_c15_cancel,
+    );
 }
 
 pub fn run_c20(ctx: &mut Ctx) {
@@ -847,6 +956,12 @@ admitted non-empty log. non-trivial = a group of >= 4 tasks and a filter that ex
 }
 
 pub fn replay_c15(ctx: &Ctx, label: &str, case: Value) -> Result<(), String> {
+    if label.contains("failure-under-contention") {
+        let c: CancelCase = serde_json::from_value(case).map_err(|e| e.to_string())?;
+        let r = check_c15_cancel(&c, 0);
+        ctx.replay_one(label, &c, r);
+        return Ok(());
+    }
     let c: Case = serde_json::from_value(case).map_err(|e| e.to_string())?;
     let r = check_c15(&c, 0);
     ctx.replay_one(label, &c, r);
